@@ -548,6 +548,30 @@ def worker(rec, shard, nshards, thorough, seed):
             if errs != sorted(want):
                 rec.violation("C07:row-codes-differ:unit-spelling", file=tsv, expected=sorted(want), got=errs)
             rec.outcome("unit-spelling")
+    # F4b the letter case of Delay where the delayed position decides: an Offset written before its Onset but delayed past it,
+    # and an Onset delayed past its Offset; every spelling of the tag name gives the issues of the canonical spelling
+    if shard == 0:
+        for first, second, clean in (("(Def/A, Offset, {}/15 s)", "(Def/A, Onset)", True),
+                                     ("({}/15 s, Def/A, Onset)", "(Def/A, Offset)", False),
+                                     ("({}/5 s, (Def/A, Onset))", "(Def/A, Offset)", None)):
+            answers = {}
+            for tag in ("Delay", "DELAY", "delay", "dElAy"):
+                tsv = f"onset\tHED\n10\t{first.format(tag)}\n20\t{second}\n"
+                rec.n("evaluations")
+                rec.n("distinct_nontrivial")
+                try:
+                    issues = validate_file(env, tsv, "{}")
+                except Exception as e:
+                    rec.violation(f"C07:raises:{type(e).__name__}:delay-case", file=tsv, error=repr(e)[:300])
+                    continue
+                answers[tag] = sorted((i["code"], i.get("ec_row")) for i in issues if i["severity"] == ERR)
+                if clean is True and answers[tag]:
+                    rec.violation("C07:delayed-marker-judged-at-its-row-time", file=tsv, got=answers[tag])
+                if clean is False and not answers[tag]:
+                    rec.violation("C07:delayed-marker-judged-at-its-row-time:error-missed", file=tsv)
+                rec.outcome("delay-case:" + ("clean" if not answers[tag] else "errors"))
+            if len({tuple(v) for v in answers.values()}) > 1:
+                rec.violation("C07:issues-depend-on-letter-case-of-Delay", first=first, second=second, answers=answers)
 
 
 def run(ctx):
